@@ -8,6 +8,7 @@ import (
 	"fmt"
 	"os"
 	"sort"
+	"strings"
 	"time"
 
 	remoteexecution "github.com/bazelbuild/remote-apis/build/bazel/remote/execution/v2"
@@ -592,7 +593,22 @@ func (w *world) dumpTerm() (string, []hint, *scheduler.VerifState) {
 	}
 	gated := w.ct.gated()
 	sort.Ints(gated)
-	return g.App("mkDelta", g.Z(d.Now), g.List(pqs), g.List(changedScqs), g.List(ops), natList(gone), g.List(inflight), g.Nat(len(d.Errors)), natList(gated)), hints, d
+	return g.App("mkDelta", g.Z(d.Now), g.List(pqs), g.List(changedScqs), g.List(ops), natList(gone), g.List(inflight), g.Nat(errorCode(d.Errors)), natList(gated)), hints, d
+}
+
+// errorCode packs the hook's findings into one number: structural
+// inconsistencies (index fields, back pointers) count 1 each, violations of
+// binary heap order 1000 each.
+func errorCode(errs []string) int {
+	n := 0
+	for _, e := range errs {
+		if strings.HasPrefix(e, "heap-order") {
+			n += 1000
+		} else {
+			n++
+		}
+	}
+	return n
 }
 
 // digest keys look like "1-<hash>-<size>-<instance>"
